@@ -15,7 +15,10 @@ GotFns == {<<T.gotFns[i][1], T.gotFns[i][2]>> : i \in 1..Len(T.gotFns)}
 GotKw  == {[label |-> T.gotKw[i].label, words |-> ToSet(T.gotKw[i].words)] : i \in 1..Len(T.gotKw)}
 Files  == {[name |-> T.files[i].name, raw |-> T.files[i].raw, at |-> i] : i \in 1..Len(T.files)}
 Expected == {[label |-> f.name, words |-> Words(f.raw)] : f \in {g \in Files : Words(g.raw) # {}}}
+\* behavioural probe: the default scanner applies the decoder - the expected (type, label) appears in the result tree
+ProbeOK == \E i \in 1..Len(T.nodes) : T.nodes[i][1] = T.want[1] /\ T.nodes[i][2] = T.want[2]
 Clauses ==
+  IF T.kind = "probe" THEN (IF ProbeOK THEN {} ELSE {"probe"}) ELSE
   (IF T.failed # <<>> THEN {"raised"} ELSE {})
   \cup (IF T.checkFns /\ GotFns # Analyzers(MarkedFn, Inc, Exc) THEN {"analyzers"} ELSE {})
   \cup (IF T.checkFns /\ Cardinality(GotFns) # Len(T.gotFns) THEN {"duplicate-decoder"} ELSE {})
